@@ -5,7 +5,8 @@ T  real `Analysis` (androguard, in-process) vs the Lean model `AgVerif.Cfg` (dri
      (forward/backward gotos of the three widths, conditional branches incl. to offset 0 and to the
      fall-through, packed/sparse switches with repeated targets and shared payloads, aligned,
      misaligned and missing payloads, fill-array-data, try ranges that start/end at, before and after
-     leaders, adjacent / overlapping ranges, handlers inside loops, shared handler lists);
+     leaders, adjacent / overlapping ranges, handlers inside loops, shared handler lists; half of the
+     DEX files are written with legal non-minimal (overlong) LEB128 in class data and handler lists);
    * every method of the shipped DEX/APK files; the model is fed with the real disassembly's
      (length, opcode, ref_off, payload kind, targets) stream and the parsed try items.
    * histories on one EncodedMethod: analysed, then its instruction list replaced through the public
@@ -408,7 +409,10 @@ def gen_spec(rng):
     return {"items": items, "tries": tries}
 
 
-def build_dex(specs, shared_handlers=False):
+def build_dex(specs, shared_handlers=False, leb_pad=0):
+    """leb_pad > 0: every LEB128 of the class data, the encoded_catch_handler lists (list size, handler
+    size, type_idx, addr, catch_all_addr) and the string sizes is written with that many extra bytes —
+    legal, non-minimal encodings, so offsets recomputed from re-encoded lengths would drift"""
     b = A.DexBuilder()
     b.extra_strings += ["a", "b", "hello"]
     methods = [A.Method("callee", "V", (), 0x9, A.Code(1, 0, 0, [("return-void",)]))]
@@ -417,7 +421,7 @@ def build_dex(specs, shared_handlers=False):
             8, 0, 2, [_item(i) for i in sp["items"]],
             tries=[A.Try(t[0], t[1], [(h[0], h[1]) for h in t[2]], t[3]) for t in sp["tries"]])))
     b.add_class(GEN_CLASS, static_fields=[A.Field("X", "I", 0x9)], direct_methods=methods)
-    data = b.build(shared_handlers=shared_handlers)
+    data = b.build(shared_handlers=shared_handlers, leb_pad=leb_pad)
     return data, b
 
 
@@ -536,8 +540,8 @@ class Run:
             self.samples.append({"case": case if len(json.dumps(case)) < 600 else {"kind": case.get("kind")},
                                  "real": self.real[-1][:300]})
 
-    def run_specs(self, specs, shared):
-        data, b = build_dex(specs, shared)
+    def run_specs(self, specs, shared, leb_pad=0):
+        data, b = build_dex(specs, shared, leb_pad)
         d, dx = load_dex(data)
         xidx, fkeys = xref_index(dx), field_keys(d)
         by_name = {m.get_name(): m for m in d.get_encoded_methods()}
@@ -545,8 +549,9 @@ class Run:
             m = by_name[f"m{k}"]
             ref = (GEN_CLASS, f"m{k}", "V", ())
             self.one_method(d, dx, m, xidx, fkeys, b.code_bytes[ref], spec_tries(sp),
-                            {"kind": "gen", "spec": sp, "shared_handlers": shared})
+                            {"kind": "gen", "spec": sp, "shared_handlers": shared, "leb_pad": leb_pad})
             self.dist["gen_methods"] += 1
+            self.dist["gen_methods_overlong_leb128"] = self.dist.get("gen_methods_overlong_leb128", 0) + bool(leb_pad)
 
     def run_history(self, h, upto=None):
         """analysis -> set_instructions -> fresh MethodAnalysis … on ONE EncodedMethod"""
@@ -603,7 +608,7 @@ class Run:
 
 def replay_case(run: Run, case):
     if case.get("kind") == "gen":
-        run.run_specs([case["spec"]], case.get("shared_handlers", False))
+        run.run_specs([case["spec"]], case.get("shared_handlers", False), case.get("leb_pad", 0))
     elif case.get("kind") == "hist":
         run.run_history(case, upto=case.get("upto"))
     elif case.get("kind") == "file":
@@ -653,7 +658,7 @@ def run(ck: Check, prop: str, pins=None):
                 specs.append(sp)
             except ValueError:
                 continue
-        r.run_specs(specs, ck.rng.random() < 0.5)
+        r.run_specs(specs, ck.rng.random() < 0.5, ck.rng.choice((0, 0, 1, 2)))
         if len(r.reqs) >= 20000:
             n += r.flush(drv)
     for name, which, path in shipped_dex_files(ck.quick):
